@@ -201,3 +201,17 @@ func ErrnoName(e syscall.Errno) string {
 	}
 	return fmt.Sprintf("errno%d", int(e))
 }
+
+// SetMtime backdates (or postdates) a file: logical milliseconds relative to the
+// start of the run, negative for "before the run began" (harness use only).
+func (p *Proc) SetMtime(path string, mtime int64) syscall.Errno {
+	f, e := p.resolve(AT_FDCWD, path, false)
+	if e != 0 {
+		return e
+	}
+	if f.dentry == nil {
+		return syscall.ENOENT
+	}
+	f.dentry.inode.Mtime = mtime
+	return 0
+}
